@@ -145,6 +145,17 @@ func checkC14(c *Ctx) error {
 		topo := []string{"child", "root"}[i%2]
 		scenarios = append(scenarios, c14Scenario{Kind: "exec", Src: it.Src, Data: it.Case.Data, Parts: parts, G: gs[i%3], Topo: topo, Cache: i%4 < 2, Iters: 12})
 	}
+	// page-then-layout on one context, concurrently with unrelated executions
+	for _, g := range []int{2, 8} {
+		for _, topo := range []string{"root", "child"} {
+			scenarios = append(scenarios, c14Scenario{Kind: "pagelayout", G: g, Topo: topo, Iters: 60,
+				Src: `<% contentFor("c") { %>[<%= gid %>|<%= for (v) in [1, 2] { %><%= v %><%= gid %><% } %>]<% } %>page:<%= gid %>`,
+				Parts: map[string]string{
+					"__layout": `<html><%= contentOf("c") %>|<%= gid %>|<%= contentOf("c", {gid: "d"}) %></html>`,
+					"__plain":  `<%= gid %>:<%= for (i) in [1, 2, 3] { %><%= gid %><% let z = gid %><%= if (z == gid) { %>=<% } %><% } %>`,
+				}})
+		}
+	}
 	for i := range scenarios {
 		scenarios[i].ID = i
 	}
@@ -453,6 +464,7 @@ func c14RunExec(s c14Scenario) (res c14Result) {
 	item := corpusItem{Src: s.Src, Case: &semCase{Data: s.Data}}
 	mkctx := func(parent *plush.Context) (*plush.Context, *runEnv) {
 		env := newRunEnv()
+		env.self = s.Src
 		for k, v := range s.Parts {
 			env.parts[k] = v
 		}
@@ -473,6 +485,9 @@ func c14RunExec(s c14Scenario) (res c14Result) {
 			if p, ok := env.parts[name]; ok {
 				return p, nil
 			}
+			if name == "self" && env.self != "" {
+				return env.self, nil
+			}
 			return "", fmt.Errorf("no partial %q", name)
 		})
 		return ctx, env
@@ -483,12 +498,36 @@ func c14RunExec(s c14Scenario) (res c14Result) {
 	}
 	_ = item
 	type outcome struct{ Out, Err, Calls string }
+	// "pagelayout": the way an application renders a page and then its layout on ONE context (a block stored
+	// by contentFor in the first execution is rendered by contentOf in the second), next to unrelated executions
+	var pageT, layoutT, plainT *plush.Template
+	if s.Kind == "pagelayout" {
+		pageT, _ = plush.NewTemplate(s.Src)
+		layoutT, _ = plush.NewTemplate(s.Parts["__layout"])
+		plainT, _ = plush.NewTemplate(s.Parts["__plain"])
+		if pageT == nil || layoutT == nil || plainT == nil {
+			res.Mismatch = "pagelayout templates do not parse"
+			return
+		}
+	}
 	run := func(t *plush.Template, gid string) outcome {
 		ctx, env := mkctx(parent)
 		ctx.Set("gid", gid) // data that differs from execution to execution
 		var out string
 		var err error
-		if t != nil {
+		if s.Kind == "pagelayout" {
+			if strings.HasPrefix(gid, "g0") || strings.HasPrefix(gid, "g2") || strings.HasPrefix(gid, "g4") || strings.HasPrefix(gid, "g6") {
+				var o2 string
+				out, err = pageT.Exec(ctx)
+				if err == nil {
+					runtime.Gosched()
+					o2, err = layoutT.Exec(ctx)
+					out += "\x00" + o2
+				}
+			} else {
+				out, err = plainT.Exec(ctx)
+			}
+		} else if t != nil {
 			out, err = t.Exec(ctx)
 		} else {
 			out, err = plush.Render(s.Src, ctx)
